@@ -20,6 +20,12 @@ _Bool nondet_bool(void);
 #define SZ ((int) sizeof(IMB_JOB))
 
 static IMB_MGR st;
+#ifdef OTHER_MGR
+static IMB_MGR other; /* C17: a second, unrelated manager */
+static unsigned char other_before;
+static unsigned long other_k;
+unsigned long nondet_ulong(void);
+#endif
 extern const int cfg_n0, cfg_e0, cfg_nj, cfg_k0; /* -1 (cfg_e0: -2) = symbolic */
 
 /* ---- ghost state ---- */
@@ -202,6 +208,14 @@ main(void)
                 pre_status[k] = st.jobs[k].status;
         }
         const int e0 = st.earliest_job, n0 = st.next_job;
+#ifdef OTHER_MGR
+        __CPROVER_havoc_object(&other);
+        other_k = nondet_ulong();
+        __CPROVER_assume(other_k < sizeof(other));
+        other_before = ((unsigned char *) &other)[other_k];
+        const int errno_global_before = imb_errno;
+        (void) errno_global_before;
+#endif
         const unsigned q0 = qsize();
         const int prior_errno = st.imb_errno; /* arbitrary stale error code */
         (void) prior_errno;
@@ -418,6 +432,9 @@ main(void)
 #endif
 
         check_desc();
+#ifdef OTHER_MGR
+        assert(((unsigned char *) &other)[other_k] == other_before); /* any byte of any other manager is untouched */
+#endif
 #ifdef WITNESS
         assert(0);
 #endif
